@@ -52,6 +52,7 @@ void sa_begin(const FaultSpec& f);   // open the op window of the current task
 OpWindow sa_end();                   // close it and return what happened
 OpWindow& sa_window();               // current task's window (open or not)
 
+void sa_compact();                 // quiet point: forget the records of blocks released long ago (no-op while anything is live)
 uint64_t sa_live_count();          // all tasks
 uint64_t sa_live_count_mine();     // blocks obtained by the current task (== sa_live_count() outside W4)
 uint64_t sa_live_bytes();
